@@ -320,7 +320,8 @@ Section Collector.
   Lemma step_ok : forall st e st' o, step c st e = (st', o) ->
     buckets_ok (st_verified st) -> step_post st st' o.
   Proof.
-    intros st e st' o H Hm. destruct e as [v|b|b]; cbn [step] in H.
+    intros st e st' o H Hm. destruct e as [v|b|b|tv]; cbn [step] in H;
+      [| | |inversion H; subst; sp3; [assumption|apply extends_refl|constructor]].
     - now apply cv_ok in H.
     - apply feed_ok in H; [|assumption]. destruct H as [Hb [Hx Hq]]. cbn in Hx.
       sp3; [assumption| |assumption].
@@ -386,3 +387,32 @@ Section Collector.
     - apply local_get_hash in Ex. destruct Ex as [Eh Ei]. exists x. repeat split; auto. now apply N.eqb_eq.
   Qed.
 End Collector.
+
+(* ---------- the high TC is not an input of the collector ----------
+   ViewStates also carries the highest timeout certificate; CollectVote / verifyCert read only the high QC.
+   In the model a high-TC move is a stimulus that changes nothing: deleting all of them from any sequence
+   leaves the final state and every other stimulus' certificates as they were. *)
+Definition is_tc (e : event) : bool := match e with ETC _ => true | _ => false end.
+Definition no_tc (es : list event) : list event := filter (fun e => negb (is_tc e)) es.
+Fixpoint drop_tc_outs (es : list event) (outs : list (list qcert)) : list (list qcert) :=
+  match es, outs with
+  | e :: r, o :: os => if is_tc e then drop_tc_outs r os else o :: drop_tc_outs r os
+  | _, _ => []
+  end.
+
+Theorem high_tc_irrelevant : forall c es st,
+  run c st (no_tc es) = (fst (run c st es), drop_tc_outs es (snd (run c st es))) /\
+  Forall2 (fun e o => is_tc e = true -> o = []) es (snd (run c st es)).
+Proof.
+  induction es as [|e es IH]; intros st.
+  - split; [reflexivity|constructor].
+  - destruct (is_tc e) eqn:Et.
+    + destruct e; try discriminate. unfold no_tc. cbn [filter is_tc negb]. fold (no_tc es).
+      cbn [run step]. destruct (IH st) as [IH1 IH2]. rewrite IH1.
+      destruct (run c st es) as [st2 os]. cbn [fst snd drop_tc_outs is_tc].
+      split; [reflexivity|constructor; auto].
+    + unfold no_tc. cbn [filter]. rewrite Et. cbn [negb]. fold (no_tc es). cbn [run].
+      destruct (step c st e) as [st1 o]. destruct (IH st1) as [IH1 IH2]. rewrite IH1.
+      destruct (run c st1 es) as [st2 os]. cbn [fst snd drop_tc_outs]. rewrite Et.
+      split; [reflexivity|constructor; [congruence|assumption]].
+Qed.
